@@ -476,6 +476,21 @@ func FilterLoop(beacon Beacon, next addr.IA, allowIsdLoop bool) error {
 	return filterLoops(hops, allowIsdLoop)
 }
 
+// FilterLoopVia is like FilterLoop, but also takes into account the local AS,
+// whose AS entry is appended to the beacon before it is sent to next. Without
+// it, a loop that is closed by the local AS itself (e.g., ISD A -> local ISD B
+// -> ISD A) goes unnoticed.
+func FilterLoopVia(beacon Beacon, local, next addr.IA, allowIsdLoop bool) error {
+	hops := buildHops(beacon)
+	if !local.IsZero() {
+		hops = append(hops, local)
+	}
+	if !next.IsZero() {
+		hops = append(hops, next)
+	}
+	return filterLoops(hops, allowIsdLoop)
+}
+
 func buildHops(beacon Beacon) []addr.IA {
 	hops := make([]addr.IA, 0, len(beacon.Segment.ASEntries)+1)
 	for _, asEntry := range beacon.Segment.ASEntries {
